@@ -127,7 +127,10 @@ func (w *c04World) settle(l2Block uint64) ([]c04Claimed, error) {
 
 func c04Recipient(rt *rapid.T, tc *twoChain) string {
 	hrp := sdk.GetConfig().GetBech32AccountAddrPrefix()
-	switch rapid.IntRange(0, 4).Draw(rt, "rcpt") {
+	switch rapid.IntRange(0, 5).Draw(rt, "rcpt") {
+	case 5:
+		// the all-uppercase spelling of a bech32 address is valid too
+		return strings.ToUpper(tc.users[rapid.IntRange(1, 4).Draw(rt, "ru")].Str)
 	case 0:
 		return bech(hrp, []byte{byte(rapid.IntRange(1, 255).Draw(rt, "b1"))})
 	case 1:
